@@ -15,8 +15,11 @@ RULE = ("one case = one operation history `item ctor n values ; op ; op ...` run
         "n = 2 in thorough; one shorter in quick) for affHash and strCat over a two-element non-commuting modifier alphabet; "
         "(2) random histories, constructor new/from_slice/from_iter x n in 1..17 (7/8) or {31,32,33,63,64,65,100,127,128,129} (1/8), "
         "op mix set 19% / modify 31% / ask 37% / lower_bound 6% / lower_bound_rev 6% / debug; (3) a small out-of-domain stream for the "
-        "asserts. Compared: `{:?}` of every returned item (raw), observable value of every ask, every debug() rendering, answers of the "
-        "searches. generator_histogram counts the op kinds and how many asks / sets / modifies / searches pushed a non-identity pending "
+        "API's asserts and the empty constructors. Operations outside 0 <= l <= r < n are outside the property's domain: their view "
+        "and spec are `ood` on all sides (the model still mirrors the panic in raw, so a changed assert is drift, not a violation). "
+        "Plain values are built with the items' own From<i64>; `v@md` values with struct literals. "
+        "Compared: `{:?}` of every returned item (raw), observable value of every ask, every debug() rendering, answers and probe "
+        "values of the searches. generator_histogram counts the op kinds and how many asks / sets / modifies / searches pushed a non-identity pending "
         "tag on their way down (`*_pushed_pending_tag`). non-trivial = history with at least one range modification followed by a query")
 ASSUMPTIONS = [
     "the Lean model of rlib_segtree is hand-written (recursion tree instead of the implicit array); it is tied to the code by running both on the same histories",
@@ -26,10 +29,12 @@ ASSUMPTIONS = [
 TRUSTED_EXTRA = ["harness items affHash/strCat are defined twice (Rust, Lean) and compared by the differential run"]
 MANIFEST = {
     "level": "proof",
-    "text": ("Lean 4 theorems over an abstract lawful item (merge only associative, modifiers need not commute): build/set/ask/modify of the "
+    "text": ("Lean 4 theorems over an abstract lawful item (merge only associative, modifiers need not commute; the overridable `update` that "
+             "merge_at calls is a field of the item with its own law): build/set/ask/modify of the "
              "modelled lazy tree refine a plain list (ask = in-order fold, modify = modifier applied to each covered element), for every "
              "size, every history (history_refines) and all three constructors; the six built-in items, every Combinator nesting and the "
-             "harness's non-commutative items are proved lawful. The hand-written model is tied to rlib_segtree by a differential "
+             "harness's non-commutative items are proved lawful; a Combinator tree answers every set/modify/ask/debug history with the pairs of "
+             "its component trees' answers (prod_runs_side_by_side). The hand-written model is tied to rlib_segtree by a differential "
              "correspondence run on every check."),
     "note": ("Trusted: Lean kernel, axioms propext/Classical.choice/Quot.sound, the hand-written model (recursion tree; the array layout "
              "2i+1/2i+2 is exercised only by the differential run), harness and driver plumbing. Integer overflow is outside the domain."),
